@@ -28,6 +28,17 @@ below the working directory *component-wise* (``os.path.commonpath``), the absol
 the working directory for a namespace package), ``relative_package_filepath`` = path relative to the search path the harness
 put the file in.  Library packages (stdlib, griffe) are dumped from existing directories only (search path, parent, root,
 inside, unrelated).
+
+Synthesised and derived objects (round 8): a dump also contains objects nobody wrote as such.  `gen_derived_package` writes
+packages of them in their boundary shapes - dataclass hierarchies of depth 0-3 (decorator spellings and options, every
+`field(...)` form, KW_ONLY / kw_only / InitVar / ClassVar, fields declared again in a derived class with and without default and
+attribute docstring, undecorated classes in between, hand-written `__init__`, nested dataclasses, bases reached through each
+import form from `__init__.py`), properties that absorbed a setter and / or deleter, overload groups with and without
+implementation, a module merged with its stub - and the dataclass hierarchies of the C18 generator are loaded with attribute
+docstrings below about half of their fields.  The oracle is unchanged (every object of the dump, the synthesised `__init__`
+and each of its parameters included, validated on its own); CPython's `ast` over the written sources says which classes must
+have a synthesised `__init__` and which fields override an inherited one, and the evidence counts those found in the validated
+documents.  Findings of C18 (content of the synthesised constructor) explain nothing here.
 """
 from __future__ import annotations
 
@@ -51,7 +62,10 @@ RULE = ("documents = full dumps of: generated rich packages (see C08; static fla
         "options); non-trivial = the dump has >=3 object kinds, >=1 alias and >=3 expression classes. Every tree lies in a "
         "generated directory layout and is dumped from 7 (library packages: 3-4 existing ones) working directories placed relative to the "
         "package (at / above / inside / beside it, name-prefix and name-extension siblings, symlinks, root, unrelated), "
-        "after being loaded from one of them with one of 5 spellings of the search path")
+        "after being loaded from one of them with one of 5 spellings of the search path; plus packages of synthesised / "
+        "derived objects (dataclass hierarchies with re-declared, documented, kw-only, InitVar, ClassVar fields; properties "
+        "with setters / deleters; overload groups; stub-merged modules; bases behind aliases) and C18's dataclass hierarchies "
+        "with field docstrings")
 LEVEL_TEXT = ("Every document is validated as a whole with jsonschema (Draft 7) against the schema file of the checked tree, "
               "and object by object to locate mismatches; the evidence lists which schema branches the documents exercised "
               "(object kinds, optional keys present and absent, value shapes of every annotation slot, docstring section "
@@ -67,7 +81,10 @@ REQUIRED_COUNTERS = ["documents_validated", "objects_validated", "static_documen
                      "clean_domain_documents_valid", "location_dumps_compared", "location_dumps_from_name_prefix_sibling",
                      "location_dumps_from_name_extension_sibling", "location_dumps_from_inside_the_package",
                      "location_dumps_through_symlink", "trees_loaded_with_respelled_search_path", "location_members_checked_against_model",
-                     "location_dumps_validated", "top_level_file_module_documents"]
+                     "location_dumps_validated", "top_level_file_module_documents", "synthesised_inits_validated",
+                     "synthesised_parameters_validated", "documented_synthesised_parameters_validated", "derived_dataclass_inits_validated",
+                     "overridden_dataclass_fields_validated", "properties_with_setter_or_deleter_validated",
+                     "overload_groups_in_validated_sources", "documents_with_merged_stubs"]
 EXHAUSTIVE = {"quick": False, "thorough": False}
 ASSUMPTIONS = ["the working directory exists while dumping (a removed working directory is outside the domain)",
                "directories used as working directories inside a search path or a package are created after loading, so that "
@@ -163,6 +180,10 @@ def record_branches(rec, obj: dict) -> None:  # noqa: ANN001, C901
     for key in optional:
         add(f"{kind}.{key}:" + ("present" if key in obj else "absent"))
     if kind != "alias":
+        for label in obj.get("labels") or []:
+            rec.add_to_set("labels_validated", str(label))
+        if kind in ("attribute", "function") and "property" in (obj.get("labels") or []) and {"writable", "deletable"} & set(obj["labels"]):
+            rec.count("properties_with_setter_or_deleter_validated")
         add(f"{kind}.labels:" + ("non-empty" if obj.get("labels") else "empty"))
         add(f"{kind}.members:" + ("non-empty" if obj.get("members") else "empty"))
         add(f"{kind}.filepath:" + shape(obj.get("filepath")))
@@ -265,6 +286,8 @@ def validate(rec, case: dict, doc: dict) -> tuple[list, bool, str | None, bool]:
                     break
     rec.count("objects_validated", n_obj)
     rec.maximum("objects_in_one_document", n_obj)
+    if case.get("kind") == "files":
+        record_derived(rec, case, doc)
     if (whole_first is None) != (not problems):
         if whole_first is not None:
             import jsonschema
@@ -372,12 +395,12 @@ def gen_layout(rng: random.Random, n_roots: int) -> dict:
             "package_extension": rng.choice(DIR_EXTENSIONS), "stem_of": rng.random()}
 
 
-def located_case(rng: random.Random, case: dict) -> dict:
+def located_case(rng: random.Random, case: dict, others: int = 4) -> dict:
     """Add a directory layout, the place and spelling the tree is loaded from/with and the working directories it is dumped from."""
     lay = gen_layout(rng, len(case["roots"]))
     picks = [rng.choice(PREFIX_POSITIONS), rng.choice(EXTENSION_POSITIONS), rng.choice(INSIDE_POSITIONS + SYMLINK_POSITIONS)]
     rest = [p for p in POSITIONS if p not in picks]
-    picks += rng.sample(rest, 4)
+    picks += rng.sample(rest, others)
     rng.shuffle(picks)
     return {**case, "layout": lay, "load_from": rng.choice(LOAD_POSITIONS), "spelling": rng.choice(SPELLINGS), "cwds": picks}
 
@@ -602,7 +625,9 @@ def dump_everywhere(rec, case: dict, mod, place: Place, tags: tuple) -> None:  #
     reference = None            # (position, stripped document, valid as a whole)
     nontrivial = False
     done = 0
-    for position in case["cwds"]:
+    for position in (*case["cwds"], "parent"):
+        if position == "parent" and position not in case["cwds"] and (done or problems):
+            break                      # the directory above the search path always exists: stand there when no chosen place applies
         entered = place.enter(position)
         if entered is None:
             rec.count("working_directories_not_applicable")
@@ -712,6 +737,343 @@ def run_case(rec, case: dict) -> None:  # noqa: ANN001, C901
         os.chdir(old_cwd)
 
 
+# -- what Griffe synthesises or derives -------------------------------------------------------------------------------
+# Packages whose dump contains objects that are not written in the source as such: the `__init__` the dataclasses extension
+# builds (parameters copied / re-ordered / de-duplicated over a hierarchy), properties that absorbed a setter / deleter,
+# overload groups, modules merged with their stubs, classes whose bases are reached through aliases, labels added on the way.
+DC_HEADER = ("import abc\nimport dataclasses\nimport dataclasses as d\nimport functools\nimport typing\n"
+             "from dataclasses import KW_ONLY, InitVar, dataclass, field\nfrom dataclasses import dataclass as dc\n"
+             "from typing import ClassVar, overload\n\n")
+DC_DECORATORS = ("@dataclass", "@dataclass", "@dataclass", "@dataclass()", "@dataclasses.dataclass", "@dc", "@d.dataclass(kw_only=True)",
+                 "@dataclass(init=False)", "@dataclass(frozen=True, slots=True)", "@dataclass(kw_only=False, eq=False)",
+                 "@dataclasses.dataclass(order=True, kw_only=True)")
+DC_ANNOTATIONS = ("int", "str", "list[int]", "int | None", "typing.Optional[str]", "dict[str, typing.Any]", "'Forward'", "tuple[int, ...]")
+DC_LITERALS = ("0", "1", "None", "'s'", "(1, 2)", "-1.5", "b'x'")
+DC_FIELD_FORMS = ("bare", "bare", "default", "default", "field", "field-default", "field-factory", "field-lambda", "field-init-false",
+                  "field-kw-only", "field-kw-only-default", "field-kw-only-false", "field-meta", "field-qualified", "initvar",
+                  "initvar-default", "classvar", "classvar-bare", "unannotated")
+DC_PLAIN_FORMS = ("bare", "default", "default", "classvar", "unannotated")
+DC_NEW_NAMES = ("a", "b", "c", "e", "g", "h", "size", "name_")
+DC_DOCS = ('"""Doc of {n} in {c}."""', '"""Doc of {n} in {c}.\n\n    More about it.\n    """',
+           '"""Summary of {n}.\n\n    Note:\n        Declared in {c}.\n    """', "'single quoted doc of {n}'")
+
+
+def gen_field_line(rng: random.Random, name: str, form: str) -> str:  # noqa: C901, PLR0911
+    ann, lit = rng.choice(DC_ANNOTATIONS), rng.choice(DC_LITERALS)
+    if form == "bare":
+        return f"{name}: {ann}"
+    if form == "default":
+        return f"{name}: {ann} = {lit}"
+    if form == "field":
+        return f"{name}: {ann} = field()"
+    if form == "field-default":
+        return f"{name}: {ann} = field(default={lit})"
+    if form == "field-factory":
+        return f"{name}: {ann} = field(default_factory={rng.choice(['list', 'dict', 'set'])})"
+    if form == "field-lambda":
+        return f"{name}: {ann} = field(default_factory=lambda: [{lit}, *range(3)])"
+    if form == "field-init-false":
+        return f"{name}: {ann} = field(init=False{rng.choice(['', ', default=0'])})"
+    if form == "field-kw-only":
+        return f"{name}: {ann} = field(kw_only=True)"
+    if form == "field-kw-only-default":
+        return f"{name}: {ann} = field({rng.choice(['kw_only=True, default=2', 'default=2, kw_only=True', 'kw_only=True, default_factory=list'])})"
+    if form == "field-kw-only-false":
+        return f"{name}: {ann} = field(kw_only=False, default={lit})"
+    if form == "field-meta":
+        return f"{name}: {ann} = field(default={lit}, repr=False, compare=False, hash=None, metadata={{'unit': 'm', 1: [2]}})"
+    if form == "field-qualified":
+        return f"{name}: {ann} = {rng.choice(['dataclasses.field', 'd.field'])}(default={lit})"
+    if form == "initvar":
+        return f"{name}: {rng.choice(['InitVar[int]', 'dataclasses.InitVar[str]', 'InitVar'])}"
+    if form == "initvar-default":
+        return f"{name}: {rng.choice(['InitVar[int]', 'dataclasses.InitVar[str]'])} = 7"
+    if form == "classvar":
+        return f"{name}: {rng.choice(['ClassVar[int]', 'typing.ClassVar[int]', 'ClassVar'])} = 9"
+    if form == "classvar-bare":
+        return f"{name}: ClassVar[{ann}]"
+    return f"{name} = {lit}"
+
+
+def gen_property_block(rng: random.Random, name: str) -> str:
+    """A property in one of its shapes: alone, with setter, with deleter, with both (any order), documented anywhere."""
+    doc = lambda who: f'\n    """{who} of {name}."""' if rng.random() < 0.5 else ""  # noqa: E731
+    kind = rng.choice(["property", "property", "functools.cached_property", "abc.abstractmethod-property"])
+    if kind == "abc.abstractmethod-property":
+        out = [f"@property\n@abc.abstractmethod\ndef {name}(self) -> int:{doc('Getter')}\n    return 1"]
+    else:
+        out = [f"@{kind}\ndef {name}(self){rng.choice([' -> int', ' -> typing.Optional[str]', ''])}:{doc('Getter')}\n    return 1"]
+    if kind != "functools.cached_property":
+        parts = []
+        if rng.random() < 0.6:
+            parts.append(f"@{name}.setter\ndef {name}(self, value{rng.choice([': int', '', ': str = 0'])}){rng.choice([' -> None', ''])}:{doc('Setter')}\n    ...")
+        if rng.random() < 0.4:
+            parts.append(f"@{name}.deleter\ndef {name}(self):{doc('Deleter')}\n    ...")
+        rng.shuffle(parts)
+        out += parts
+    return "\n".join(out)
+
+
+def gen_overload_block(rng: random.Random, name: str, method: bool) -> str:
+    """An overload group: 1-3 signatures, with or without implementation, decorated spellings, a docstring on any of them."""
+    me = "self, " if method else ""
+    sigs = [f"({me}x: int) -> int", f"({me}x: str, /, *rest: bytes, flag: bool = ...) -> str", f"({me}x: None = ..., **kw: typing.Any) -> None"]
+    out = []
+    for sig in sigs[:rng.randint(1, 3)]:
+        deco = rng.choice(["@overload", "@typing.overload"])
+        if method and rng.random() < 0.2:
+            deco += "\n@staticmethod"
+            sig = sig.replace("self, ", "")  # noqa: PLW2901
+        body = ' """One signature."""' if rng.random() < 0.3 else " ..."
+        out.append(f"{deco}\ndef {name}{sig}:{body}")
+    if rng.random() < 0.75:
+        out.append(f"def {name}({me}x=None, *rest, flag=False, **kw):\n    \"\"\"Implementation of {name}.\"\"\"\n    return x")
+    return "\n".join(out)
+
+
+def gen_dc_class(rng: random.Random, cname: str, bases: list[str], inherited: list[str], decorated: bool) -> tuple[list[str], list[str]]:  # noqa: C901
+    """One class of a dataclass hierarchy; returns (lines, names of the fields it declares)."""
+    lines = []
+    if decorated:
+        lines.append(rng.choice(DC_DECORATORS))
+    lines.append(f"class {cname}" + (f"({', '.join(bases)})" if bases else "") + ":")
+    body: list[str] = []
+    if rng.random() < 0.5:
+        body.append(f'"""Class {cname}."""')
+    fresh = rng.sample(DC_NEW_NAMES, rng.choice([0, 1, 2, 2, 3] if inherited else [1, 2, 2, 3, 4]))
+    fresh = [n for n in fresh if n not in inherited]
+    over = rng.sample(inherited, min(len(inherited), rng.choice([0, 1, 1, 2, 2, 3])))      # fields declared again
+    names = fresh + over
+    rng.shuffle(names)
+    marker_at = rng.randrange(len(names) + 1) if decorated and rng.random() < 0.3 else None
+    for i, name in enumerate(names):
+        if marker_at == i:
+            body.append(rng.choice(["_: KW_ONLY", "_: dataclasses.KW_ONLY"]))
+        forms = DC_FIELD_FORMS if decorated else DC_PLAIN_FORMS
+        body.append(gen_field_line(rng, name, rng.choice(forms[:-1] if name in over and rng.random() < 0.8 else forms)))
+        if rng.random() < 0.5:
+            body[-1] += "\n" + rng.choice(DC_DOCS).format(n=name, c=cname)      # one block: nothing is inserted between the two
+    if marker_at == len(names):
+        body.append("_: KW_ONLY")
+    extras = []
+    if rng.random() < 0.1:
+        extras.append(rng.choice(["def __init__(self, p, /, q=1, *r, s, **t): ...", "def __init__(self) -> None:\n    self.made_here: int = 1\n    \"\"\"Doc.\"\"\""]))
+    if rng.random() < 0.2:
+        extras.append("def __post_init__(self, *args): ...")
+    if rng.random() < 0.4:
+        extras.append(gen_property_block(rng, rng.choice(["prop", "view", *(names[:1] if rng.random() < 0.3 else [])])))
+    if rng.random() < 0.25:
+        extras.append(gen_overload_block(rng, "conv", method=True))
+    if rng.random() < 0.12:
+        inner, _ = gen_dc_class(rng, "Inner", [], [], decorated=True)
+        extras.append("\n".join(inner))
+    rng.shuffle(extras)
+    for extra in extras:
+        body.insert(rng.randrange(len(body) + 1) if rng.random() < 0.3 else len(body), extra)
+    if not body:
+        body = [rng.choice(["pass", "...", '"""Only a docstring."""'])]
+    lines.extend("    " + ln for block in body for ln in block.split("\n"))
+    return lines, [n for n in names if n != "_"]
+
+
+def gen_derived_package(rng: random.Random, name: str) -> dict:  # noqa: C901, PLR0912, PLR0915
+    """Files of a package made of things Griffe has to synthesise / derive before it can dump them."""
+    n = rng.randint(3, 7)
+    depth: list[int] = []
+    fields_of: list[list[str]] = []
+    shapes = DC_HEADER
+    top_classes: list[str] = []            # classes of the hierarchy that live in __init__.py (bases reached through imports)
+    top_src = ""
+    reach = rng.choice(["from-import", "from-import-as", "module", "relative", "wildcard"])
+    for i in range(n):
+        cands = [j for j in range(i) if depth[j] < 3]
+        k = 0 if not cands else rng.choice([0, 1, 1, 1, 1, 1, 2])
+        bases_idx = sorted(rng.sample(cands, min(k, len(cands))), reverse=True)
+        depth.append(1 + max((depth[j] for j in bases_idx), default=-1))
+        inherited = list(dict.fromkeys(nm for j in bases_idx for nm in fields_of[j]))
+        decorated = rng.random() < (0.8 if bases_idx else 0.9)
+        # a class lives in __init__.py by choice, or because one of its bases does (its bases in shapes.py are then reached through imports)
+        in_top = (i >= 1 and rng.random() < 0.3) or any(f"K{j}" in top_classes for j in bases_idx)
+        base_texts = []
+        for j in bases_idx:
+            if in_top and f"K{j}" not in top_classes:
+                base_texts.append({"from-import": f"K{j}", "from-import-as": f"Base{j}", "module": f"{name}.shapes.K{j}", "relative": f"shapes.K{j}",
+                                   "wildcard": f"K{j}"}[reach])
+            else:
+                base_texts.append(f"K{j}")
+        lines, own = gen_dc_class(rng, f"K{i}", base_texts, inherited, decorated)
+        fields_of.append(list(dict.fromkeys(inherited + own)))
+        if in_top:
+            top_classes.append(f"K{i}")
+            top_src += "\n".join(lines) + "\n\n\n"
+        else:
+            shapes += "\n".join(lines) + "\n\n\n"
+    in_shapes = [f"K{i}" for i in range(n) if f"K{i}" not in top_classes]
+    init = f'"""Package {name}."""\n' + DC_HEADER
+    init += {"from-import": f"from {name}.shapes import {', '.join(in_shapes)}\n",
+             "from-import-as": f"from {name}.shapes import {', '.join(f'{c} as Base{c[1:]}' for c in in_shapes)}\n",
+             "module": f"import {name}.shapes\n", "relative": "from . import shapes\n", "wildcard": f"from {name}.shapes import *\n"}[reach]
+    init += f"from {name} import props as props_module\nfrom .stubbed import api, Stubbed as StubbedAlias\n\n"
+    init += top_src
+    if rng.random() < 0.5:
+        init += "__all__ = [" + ", ".join(repr(x) for x in [*top_classes, "api", "StubbedAlias"]) + "]\n"
+    # properties / overloads / decorated callables outside dataclasses
+    props = '"""Properties and overloads."""\n' + DC_HEADER
+    for i in range(rng.randint(1, 3)):
+        body = [gen_property_block(rng, f"p{k}") for k in range(rng.randint(1, 3))]
+        if rng.random() < 0.6:
+            body.append(gen_overload_block(rng, "pick", method=True))
+        if rng.random() < 0.4:
+            body.append(rng.choice(["@classmethod\ndef make(cls, *a, **k) -> 'typing.Self': ...", "@staticmethod\ndef helper(x, /, y=2, *, z): ...",
+                                    "@functools.cache\ndef cached(self) -> int:\n    return 1"]))
+        rng.shuffle(body)
+        base = f"(P{i - 1})" if i and rng.random() < 0.5 else rng.choice(["", "(abc.ABC)"])
+        props += f"class P{i}{base}:\n" + "\n".join("    " + ln for block in body for ln in block.split("\n")) + "\n\n\n"
+    for k in range(rng.randint(1, 2)):
+        props += gen_overload_block(rng, f"over{k}", method=False) + "\n\n\n"
+    # a module and its stub: overloads / annotations / members that exist on one side only
+    stub_fields = [gen_field_line(rng, nm, rng.choice(("bare", "default", "field-default", "field-kw-only", "classvar"))) for nm in ("x", "y", "z")]
+    stubbed = ('"""Implementation."""\n' + DC_HEADER + "def api(a, b=1, *args, **kwargs):\n    \"\"\"Doc of api.\"\"\"\n    return a\n\n\n"
+               "class Stubbed:\n    \"\"\"Doc of Stubbed.\"\"\"\n    attr = 1\n    \"\"\"Doc of attr.\"\"\"\n    def meth(self, x, y=None):\n"
+               "        \"\"\"Doc of meth.\"\"\"\n" + "\n".join("    " + ln for ln in gen_property_block(rng, "both").split("\n")) + "\n\n\n"
+               f"{rng.choice(DC_DECORATORS)}\nclass StubbedData:\n" + "\n".join("    " + ln for ln in stub_fields[:rng.randint(1, 3)]) + "\n")
+    pyi = DC_HEADER
+    pyi += (gen_overload_block(rng, "api", method=False).replace(' """One signature."""', " ...") if rng.random() < 0.6
+            else "def api(a: int, b: int = ..., *args: str, **kwargs: bytes) -> int: ...") + "\n\n"
+    pyi += ("class Stubbed:\n    attr: int\n    def meth(self, x: int, y: str | None = ...) -> str: ...\n"
+            + rng.choice(["", "    @property\n    def only_in_stub(self) -> int: ...\n", "    extra: typing.ClassVar[str]\n"])
+            + rng.choice(["", "    @property\n    def both(self) -> int: ...\n    @both.setter\n    def both(self, value: int) -> None: ...\n"]) + "\n")
+    if rng.random() < 0.7:
+        pyi += f"{rng.choice(DC_DECORATORS)}\nclass StubbedData:\n" + "\n".join(
+            "    " + (ln.split(" = ")[0] + (" = ..." if " = " in ln else "")) for ln in stub_fields[:rng.randint(1, 3)]) + "\n"
+    files = {f"{name}/__init__.py": init, f"{name}/shapes.py": shapes, f"{name}/props.py": props, f"{name}/stubbed.py": stubbed}
+    if rng.random() < 0.8:
+        files[f"{name}/stubbed.pyi"] = pyi
+    return files
+
+
+FIELD_LINE = None
+
+
+def inject_field_docstrings(rng: random.Random, source: str) -> str:
+    """Put an attribute docstring below about half of the annotated class-level declarations of a module text."""
+    import re
+
+    global FIELD_LINE
+    if FIELD_LINE is None:
+        FIELD_LINE = re.compile(r"^( +)([A-Za-z]\w*): \S.*$")
+    out = []
+    for line in source.split("\n"):
+        out.append(line)
+        m = FIELD_LINE.match(line)
+        if m and not line.rstrip().endswith(":") and rng.random() < 0.5:
+            out.append(f'{m.group(1)}"""Doc of {m.group(2)}."""')
+    return "\n".join(out)
+
+
+def derived_census(files_of_roots: list[dict]) -> dict:  # noqa: C901
+    """CPython's ast on the written sources (independent of Griffe): dataclass-decorated classes, whether they define `__init__`,
+    their annotated fields (documented? default?), their bases by name; overload groups; properties with setter / deleter."""
+    import ast
+
+    classes: dict[tuple, dict] = {}
+    out = {"classes": classes, "overload_groups": 0, "accessor_properties": 0, "stub_pairs": 0}
+
+    def last_name(node) -> str | None:  # noqa: ANN001
+        if isinstance(node, ast.Call):
+            node = node.func
+        if isinstance(node, ast.Attribute):
+            return node.attr
+        return node.id if isinstance(node, ast.Name) else None
+
+    def scan(body: list, module: tuple, qual: tuple) -> None:
+        overloaded, accessors = set(), set()
+        for k, stmt in enumerate(body):
+            if isinstance(stmt, (ast.FunctionDef, ast.AsyncFunctionDef)):
+                names = [last_name(d) for d in stmt.decorator_list]
+                if "overload" in names:
+                    overloaded.add(stmt.name)
+                if any(x in ("setter", "deleter") for x in names):
+                    accessors.add(stmt.name)
+            elif isinstance(stmt, ast.ClassDef):
+                fields = {}
+                for j, sub in enumerate(stmt.body):
+                    if isinstance(sub, ast.AnnAssign) and isinstance(sub.target, ast.Name):
+                        nxt = stmt.body[j + 1] if j + 1 < len(stmt.body) else None
+                        doc = isinstance(nxt, ast.Expr) and isinstance(nxt.value, ast.Constant) and isinstance(nxt.value.value, str)
+                        fields[sub.target.id] = (bool(doc), sub.value is not None)    # the last declaration of a name wins
+                classes[(module, (*qual, stmt.name))] = {
+                    "decorated": any(last_name(d) in ("dataclass", "dc") for d in stmt.decorator_list),
+                    "has_init": any(isinstance(sub, (ast.FunctionDef, ast.AsyncFunctionDef)) and sub.name == "__init__" for sub in stmt.body),
+                    "fields": fields, "bases": [last_name(b) for b in stmt.bases], "name": stmt.name, "order": (module, stmt.lineno, k)}
+                scan(stmt.body, module, (*qual, stmt.name))
+        out["overload_groups"] += len(overloaded)
+        out["accessor_properties"] += len(accessors)
+
+    for files in files_of_roots:
+        for rel, text in files.items():
+            if rel.endswith(".pyi") and rel[:-1] in files:
+                out["stub_pairs"] += 1
+            if not rel.endswith(".py"):
+                continue
+            try:
+                tree = ast.parse(text)
+            except (SyntaxError, ValueError):
+                continue
+            parts = rel[:-3].split("/")
+            scan(tree.body, tuple(parts[:-1] if parts[-1] == "__init__" else parts), ())
+    return out
+
+
+def record_derived(rec, case: dict, doc: dict) -> None:  # noqa: ANN001, C901
+    """Evidence: which synthesised / derived objects the validated document really contains (looked up where the sources say)."""
+    census = derived_census(case.get("roots", []))
+    rec.count("overload_groups_in_validated_sources", census["overload_groups"])
+    rec.count("accessor_properties_in_validated_sources", census["accessor_properties"])
+    if census["stub_pairs"]:
+        rec.count("documents_with_merged_stubs")
+    by_name: dict[str, list] = {}
+    for info in census["classes"].values():
+        by_name.setdefault(info["name"], []).append(info)
+
+    def ancestors(info: dict, seen: set, level: int = 1):  # noqa: ANN202
+        for base in info["bases"]:
+            for cand in by_name.get(base or "", []):
+                if id(cand) not in seen:
+                    seen.add(id(cand))
+                    yield level, cand
+                    yield from ancestors(cand, seen, level + 1)
+
+    for (module, qual), info in census["classes"].items():
+        if not info["decorated"] or info["has_init"] or not module or module[0] != doc.get("name"):
+            continue
+        node = doc
+        for part in (*module[1:], *qual):
+            members = node.get("members") if isinstance(node, dict) else None
+            node = members.get(part) if isinstance(members, dict) else None
+            if node is None:
+                break
+        init = (node or {}).get("members", {}).get("__init__") if isinstance(node, dict) and node.get("kind") == "class" else None
+        if not isinstance(init, dict) or init.get("kind") != "function":
+            continue
+        rec.count("synthesised_inits_validated")
+        params = init.get("parameters") or []
+        rec.count("synthesised_parameters_validated", len(params))
+        rec.maximum("parameters_of_one_synthesised_init", len(params))
+        rec.count("documented_synthesised_parameters_validated", sum(1 for p in params if isinstance(p, dict) and "docstring" in p))
+        chain = [(lv, a) for lv, a in ancestors(info, {id(info)}) if a["decorated"]]
+        if chain:
+            rec.count("derived_dataclass_inits_validated")
+            rec.maximum("dataclass_hierarchy_depth", max(lv for lv, _a in chain))
+        for fname, (own_doc, own_default) in info["fields"].items():
+            over = next((a["fields"][fname] for _lv, a in chain if fname in a["fields"]), None)
+            if over is not None:
+                rec.count("overridden_dataclass_fields_validated")
+                rec.add_to_set("dataclass_override_shapes",
+                               f"base:{'doc' if over[0] else 'nodoc'},{'default' if over[1] else 'nodefault'} "
+                               f"own:{'doc' if own_doc else 'nodoc'},{'default' if own_default else 'nodefault'}")
+
+
 # -- workload ---------------------------------------------------------------------------------------------------------
 def shards(tier: str, seed: int) -> list[dict]:
     quick = tier == "quick"
@@ -722,7 +1084,7 @@ def shards(tier: str, seed: int) -> list[dict]:
             "stdlib": [c08.STDLIB[(2 * i + k) % len(c08.STDLIB)] for k in range(2)] if quick else
                       [c08.STDLIB[(3 * i + k) % len(c08.STDLIB)] for k in range(3)],
             "own": (["griffe"] if i == 0 else ["_griffe"] if i == 1 else []), "depth": 2 if quick else 3,
-            "structural_pkgs": 12 if quick else 300,
+            "structural_pkgs": 12 if quick else 300, "derived_pkgs": 9 if quick else 220, "dataclass_pkgs": 7 if quick else 180,
         })
     return out
 
@@ -764,6 +1126,33 @@ def generated_cases(rng: random.Random, spec: dict, uid: str):  # noqa: ANN201
                "implicit": True, "parser": rng.choice(PARSERS)}
 
 
+def derived_cases(rng: random.Random, spec: dict, uid: str):  # noqa: ANN201
+    """Packages of synthesised / derived things (own generator), and the dataclass hierarchies of the C18 generator with attribute
+    docstrings put below about half of their fields - statically loaded, any parser, aliases resolved or not."""
+    from vf.gen import c18_dataclasses
+
+    for i in range(spec.get("derived_pkgs", 0)):
+        name = f"wd{uid}_{i}"
+        files = gen_derived_package(rng, name)
+        for rel, text in files.items():
+            compile(text, rel, "exec")         # a generator slip must be loud, not a silently empty module
+        resolve = rng.random() < 0.5
+        yield {"kind": "files", "source": "derived", "roots": [files], "package": name, "agent": "static", "resolve": resolve,
+               "implicit": rng.random() < 0.5, "parser": rng.choice(PARSERS)}
+        if rng.random() < 0.25:
+            yield {"kind": "files", "source": "derived", "roots": [files], "package": name, "agent": "static", "resolve": not resolve,
+                   "implicit": rng.random() < 0.5, "parser": None}
+    done = 0
+    while done < spec.get("dataclass_pkgs", 0):
+        gen = c18_dataclasses.gen_case(rng)
+        if "load" in gen:                      # several separately loaded packages: one document per package is C09's unit
+            continue
+        done += 1
+        files = {rel: inject_field_docstrings(rng, text) for rel, text in gen["files"].items()}
+        yield {"kind": "files", "source": "dataclasses", "roots": [files], "package": gen["package"], "agent": "static",
+               "resolve": rng.random() < 0.5, "implicit": False, "parser": rng.choice([None, None, "google"])}
+
+
 def run_shard(spec: dict, rec) -> None:  # noqa: ANN001
     rng = random.Random(spec["seed"])
     where = random.Random(spec["seed"] * 7919 + 17)      # directory layouts and working directories: a stream of their own
@@ -779,6 +1168,8 @@ def run_shard(spec: dict, rec) -> None:  # noqa: ANN001
                        "cwds": where.sample(NAMED_POSITIONS, 4)})
     for case in generated_cases(rng, spec, uid):
         run_case(rec, located_case(where, case))
+    for case in derived_cases(random.Random(spec["seed"] * 104729 + 5), spec, uid):     # a stream of its own as well
+        run_case(rec, located_case(where, case, others=0))      # these are about content: three working directories each
 
 
 def run_replay(inp: dict, rec) -> None:  # noqa: ANN001
